@@ -330,6 +330,11 @@ func fpHeader(t *rapid.T, kind string, compact bool, sb sigBase) SigHdr {
 	case "via":
 		proto := pick(t, "vproto", "SIP/2.0/UDP ", "SIP/2.0/TCP ", "SIP/2.0/TLS ")
 		other := pick(t, "vother", "", ";rport", ";received=1.2.3.4", ";ttl=2")
+		if len(sb.branch) == 0 {
+			// a first Via without a branch (or with a value-less / empty one): the signature has no branch
+			// part, and a later Via that does have one must not supply it
+			return SigHdr{name, B(proto + host + other + pick(t, "nobranch", "", "", ";branch", ";branch="))}
+		}
 		if rapid.Bool().Draw(t, "brfirst") {
 			return SigHdr{name, B(proto + host + ";branch=" + string(sb.branch) + other)}
 		}
@@ -374,6 +379,9 @@ func genCaseSig(t *rapid.T) CaseSig {
 	sb := sigBase{callid: genCallIDText(t),
 		tag:    genFrom(t, "tag", "abcdef0123456789ABCDEF-.+", 1, 16),
 		branch: append(B(pick(t, "brpfx", "z9hG4bK", "z9hG4bK", "")), genFrom(t, "br", "abcdef0123456789ABCXYZ-.", 1, 20)...)}
+	if rapid.IntRange(0, 5).Draw(t, "nobranch1st") == 0 {
+		sb.branch = nil // first Via without a branch
+	}
 	c.CallID, c.Tag, c.Branch = sb.callid, sb.tag, sb.branch
 	// subset and order of fingerprinted headers, with their forms
 	perm := rapid.Permutation(fpKinds).Draw(t, "perm")
